@@ -29,21 +29,22 @@ type c02Signer struct {
 }
 
 type c02Case struct {
-	Weights  []uint64    `json:"weights"`
-	Height   uint64      `json:"height"`
-	Soft     bool        `json:"soft"`
-	Signers  []c02Signer `json:"signers"`
-	Type     uint16      `json:"type"` // header type tag
-	Inst     uint64      `json:"inst"`
-	RefH     uint64      `json:"ref_h"`
-	View     uint64      `json:"view"`
-	HashMode string      `json:"hash_mode"` // ok | other | empty
-	SeedMode string      `json:"seed_mode"` // ok | empty | garbage | other-height | other-seed
-	PrevMode string      `json:"prev_mode"` // nil | genuine | wrong
-	NilBlock bool        `json:"nil_block"`
-	ByteOps  []byteOp    `json:"byteops"`
-	RawProof []byte      `json:"raw_proof,omitempty"` // if set, used verbatim
-	BlockID  string      `json:"block_id,omitempty"`  // the block being validated (default "the-block"); another id = a fork block of the same height
+	Weights     []uint64    `json:"weights"`
+	Height      uint64      `json:"height"`
+	Soft        bool        `json:"soft"`
+	Signers     []c02Signer `json:"signers"`
+	Type        uint16      `json:"type"` // header type tag
+	Inst        uint64      `json:"inst"`
+	RefH        uint64      `json:"ref_h"`
+	View        uint64      `json:"view"`
+	HashMode    string      `json:"hash_mode"` // ok | other | empty
+	SeedMode    string      `json:"seed_mode"` // ok | empty | garbage | other-height | other-seed
+	PrevMode    string      `json:"prev_mode"` // nil | genuine | wrong
+	NilBlock    bool        `json:"nil_block"`
+	ByteOps     []byteOp    `json:"byteops"`
+	RawProof    []byte      `json:"raw_proof,omitempty"`    // if set, used verbatim
+	BlockID     string      `json:"block_id,omitempty"`     // the block being validated (default "the-block"); another id = a fork block of the same height
+	NoCommittee bool        `json:"no_committee,omitempty"` // the consumer's committee service fails for this call (context alive): nothing can be validated, so nothing may be accepted
 }
 
 type c02World struct {
@@ -53,6 +54,7 @@ type c02World struct {
 	ids    []primitives.MemberId
 	com    []interfaces.CommitteeMember
 	wl     *leanhelix.WorkerLoop
+	mem    *fakes.Membership
 	env    *ref.Env
 	// signatures of the signers of the previous / the current proof built on this instance (signer mode "prev-proof")
 	lastSigs, curSigs map[int][]byte
@@ -88,6 +90,7 @@ func newC02World(ws []uint64, height uint64) *c02World {
 		}
 		return w.alt
 	}}
+	w.mem = mem
 	cfg := &interfaces.Config{InstanceId: sim.Instance, Membership: mem, BlockUtils: fakes.NewBlockUtils("v"), KeyManager: &fakes.KeyManager{Reg: w.reg, Me: w.ids[0]},
 		Communication: &fakes.Communication{Send: func([]primitives.MemberId, *interfaces.ConsensusRawMessage) {}}, OverrideElectionTrigger: fakes.NewSched()}
 	st := state.NewState()
@@ -204,10 +207,15 @@ func runC02In(w *c02World, c c02Case, shared *[]byte) (*ev.Violation, bool, bool
 	}
 	var err error
 	var panicked interface{}
+	w.mem.FailProofCommittee = c.NoCommittee
 	func() {
 		defer func() { panicked = recover() }()
 		err = w.wl.ValidateBlockConsensus(context.Background(), blk, proof, prevBlock, prevProof, c.Soft)
 	}()
+	w.mem.FailProofCommittee = false
+	if c.NoCommittee && err == nil && panicked == nil {
+		return viol("accepted-without-committee", "ValidateBlockConsensus (soft=%v) returned nil although the committee of the block's height could not be obtained (the committee service failed while the context was alive): no signer can have been checked", c.Soft), true, false
+	}
 	if panicked != nil {
 		return viol("validate-panic", "ValidateBlockConsensus panicked on a %d-byte proof: %v", len(proof), panicked), false, false
 	}
@@ -339,6 +347,9 @@ func drawC02(t *rapid.T) c02Case {
 		case 15:
 			c.RawProof = rapid.SliceOfN(rapid.Byte(), 0, 80).Draw(t, "rawproof")
 		}
+	}
+	if rapid.IntRange(0, 11).Draw(t, "no-committee") == 0 {
+		c.NoCommittee = true
 	}
 	return c
 }
